@@ -110,10 +110,10 @@ PROPS = {
     'C02': dict(level='proof', module='EscProofs.P.C02',
                 # the last stream of each tier lets the credentials refresh fail (provider rebuilt inside a cool-down): 5 s of real sleep each
                 streams=dict(quick=[('scenario', ['-dir', '@ROOT/corpus/C02']), ('hist', ['-n', 400, '-scans', 10, '-focus', 'cooldown']),
-                                    ('hist', ['-n', 4, '-scans', 5, '-focus', 'cooldown', '-slow'])],
+                                    ('hist', ['-n', 16, '-scans', 5, '-focus', 'cooldown', '-slow'])],
                              thorough=[('scenario', ['-dir', '@ROOT/corpus/C02']), ('hist', ['-n', 20000, '-scans', 12, '-focus', 'cooldown']),
-                                       ('hist', ['-n', 60, '-scans', 6, '-focus', 'cooldown', '-slow']), ('hist', ['-n', 200, '-scans', 8, '-focus', 'fleet'])],
-                             search=[('hist', ['-n', 1500, '-scans', 12, '-focus', 'cooldown']), ('hist', ['-n', 12, '-scans', 6, '-focus', 'cooldown', '-slow']),
+                                       ('hist', ['-n', 160, '-scans', 6, '-focus', 'cooldown', '-slow']), ('hist', ['-n', 200, '-scans', 8, '-focus', 'fleet'])],
+                             search=[('hist', ['-n', 1500, '-scans', 12, '-focus', 'cooldown']), ('hist', ['-n', 32, '-scans', 6, '-focus', 'cooldown', '-slow']),
                                      ('hist', ['-n', 30, '-scans', 8, '-focus', 'fleet'])]),
                 aspects=['hist:writes', 'hist:state'], monitors=['C02'],
                 theorems=['Esc.P.C02_quiet_scan', 'Esc.P.C02_history_quiet', 'Esc.P.C02_release', 'Esc.P.C02_release_scan', 'Esc.P.C02_armed',
@@ -175,9 +175,9 @@ PROPS = {
                 level_note=LEVEL_NOTE),
     'C07': dict(level='proof', module='EscProofs.P.C07',
                 # the last stream lets the credentials refresh fail (provider rebuilt, 5 s of real sleep each) before a scale-up
-                streams=dict(quick=[('scenario', ['-dir', '@ROOT/corpus/C07']), ('awsops', ['-n', 3000]), ('hist', ['-n', 400, '-scans', 10, '-focus', 'up']), ('hist', ['-n', 5, '-scans', 6, '-focus', 'up', '-slow'])],
-                             thorough=[('scenario', ['-dir', '@ROOT/corpus/C07']), ('awsops', ['-n', 100000]), ('hist', ['-n', 20000, '-scans', 12, '-focus', 'up']), ('hist', ['-n', 60, '-scans', 6, '-focus', 'up', '-slow'])],
-                             search=[('awsops', ['-n', 20000]), ('hist', ['-n', 1500, '-scans', 12, '-focus', 'up']), ('hist', ['-n', 12, '-scans', 6, '-focus', 'up', '-slow'])]),
+                streams=dict(quick=[('scenario', ['-dir', '@ROOT/corpus/C07']), ('awsops', ['-n', 3000]), ('hist', ['-n', 400, '-scans', 10, '-focus', 'up']), ('hist', ['-n', 16, '-scans', 6, '-focus', 'up', '-slow'])],
+                             thorough=[('scenario', ['-dir', '@ROOT/corpus/C07']), ('awsops', ['-n', 100000]), ('hist', ['-n', 20000, '-scans', 12, '-focus', 'up']), ('hist', ['-n', 160, '-scans', 6, '-focus', 'up', '-slow'])],
+                             search=[('awsops', ['-n', 20000]), ('hist', ['-n', 1500, '-scans', 12, '-focus', 'up']), ('hist', ['-n', 32, '-scans', 6, '-focus', 'up', '-slow'])]),
                 aspects=['hist:untaints', 'hist:resize', 'hist:gets', 'hist:pre', 'cached-desired'], monitors=['C07'],
                 theorems=['Esc.P.C07_order', 'Esc.P.C07_remainder', 'Esc.P.C07_on_top', 'Esc.untaintLoop_spec', 'Esc.P.tryDelete_desired', 'Esc.orderBy_pairwise'],
                 technique='Lean 4 theorem (untaint loop attempts a newest-first prefix; count/remainder accounting of ScaleUp; exact SetDesiredCapacity value on the cached desired size, which follows accepted terminations) + differential correspondence incl. the provider cache after multi-node deletions + monitors',
@@ -213,9 +213,9 @@ PROPS = {
                 level_note=LEVEL_NOTE),
     'C11': dict(level='proof', module='EscProofs.P.C11',
                 # the last stream of each tier: the credentials refresh fails and the provider is rebuilt under a dry group (5 s of real sleep each)
-                streams=dict(quick=[('scenario', ['-dir', '@ROOT/corpus/C11']), ('hist', ['-n', 400, '-scans', 10, '-focus', 'dry']), ('hist', ['-n', 5, '-scans', 6, '-focus', 'dry', '-slow'])],
-                             thorough=[('scenario', ['-dir', '@ROOT/corpus/C11']), ('hist', ['-n', 20000, '-scans', 12, '-focus', 'dry']), ('hist', ['-n', 60, '-scans', 6, '-focus', 'dry', '-slow'])],
-                             search=[('hist', ['-n', 1500, '-scans', 12, '-focus', 'dry']), ('hist', ['-n', 12, '-scans', 6, '-focus', 'dry', '-slow'])]),
+                streams=dict(quick=[('scenario', ['-dir', '@ROOT/corpus/C11']), ('hist', ['-n', 400, '-scans', 10, '-focus', 'dry']), ('hist', ['-n', 16, '-scans', 6, '-focus', 'dry', '-slow'])],
+                             thorough=[('scenario', ['-dir', '@ROOT/corpus/C11']), ('hist', ['-n', 20000, '-scans', 12, '-focus', 'dry']), ('hist', ['-n', 160, '-scans', 6, '-focus', 'dry', '-slow'])],
+                             search=[('hist', ['-n', 1500, '-scans', 12, '-focus', 'dry']), ('hist', ['-n', 32, '-scans', 6, '-focus', 'dry', '-slow'])]),
                 aspects=['hist:drywrites'], monitors=['C11'],
                 theorems=['Esc.P.C11_scan', 'Esc.P.C11_history', 'Esc.P.C11_reading'],
                 technique='Lean 4 theorem (journal anatomy: with either dry switch every entry is a read) + differential correspondence and runtime monitor',
@@ -260,10 +260,10 @@ PROPS = {
     'C19': dict(level='proof', module='EscProofs.P.C19',
                 # churn: nodes come due, instances arrive, the cloud group's bounds move; with -slow the provider is rebuilt in between (5 s of real sleep each)
                 streams=dict(quick=[('scenario', ['-dir', '@ROOT/corpus/C19']), ('awsops', ['-n', 3000]), ('hist', ['-n', 300, '-scans', 10]), ('hist', ['-n', 150, '-scans', 10, '-focus', 'churn']),
-                                    ('hist', ['-n', 5, '-scans', 7, '-focus', 'churn', '-slow'])],
+                                    ('hist', ['-n', 16, '-scans', 7, '-focus', 'churn', '-slow'])],
                              thorough=[('scenario', ['-dir', '@ROOT/corpus/C19']), ('awsops', ['-n', 200000]), ('hist', ['-n', 15000, '-scans', 12]), ('hist', ['-n', 8000, '-scans', 12, '-focus', 'churn']),
-                                       ('hist', ['-n', 60, '-scans', 8, '-focus', 'churn', '-slow'])],
-                             search=[('awsops', ['-n', 20000]), ('hist', ['-n', 1500, '-scans', 12]), ('hist', ['-n', 1000, '-scans', 12, '-focus', 'churn']), ('hist', ['-n', 12, '-scans', 8, '-focus', 'churn', '-slow'])]),
+                                       ('hist', ['-n', 160, '-scans', 8, '-focus', 'churn', '-slow'])],
+                             search=[('awsops', ['-n', 20000]), ('hist', ['-n', 1500, '-scans', 12]), ('hist', ['-n', 1000, '-scans', 12, '-focus', 'churn']), ('hist', ['-n', 32, '-scans', 8, '-focus', 'churn', '-slow'])]),
                 aspects=['journal', 'outcome', 'cached-desired', 'hist:removals', 'hist:outcome'], monitors=['C19'],
                 theorems=['Esc.P.C19_delete', 'Esc.P.C19_count', 'Esc.P.C19_refuse', 'Esc.P.C19_k8s_after_cloud', 'Esc.P.C19_scan_batches',
                           'Esc.P.C19_not_member_scan', 'Esc.P.C19_not_member_fatal'],
@@ -324,7 +324,7 @@ PROPS = {
                 level_note=LEVEL_NOTE),
     'C20': dict(level='proof', module='EscProofs.P.C20',
                 streams=dict(quick=[('scenario', ['-dir', '@ROOT/corpus/C20']), ('hist', ['-n', 500, '-scans', 8, '-focus', 'faults'])],
-                             thorough=[('scenario', ['-dir', '@ROOT/corpus/C20']), ('hist', ['-n', 30000, '-scans', 10, '-focus', 'faults']), ('hist', ['-n', 60, '-scans', 6, '-focus', 'faults', '-slow'])],
+                             thorough=[('scenario', ['-dir', '@ROOT/corpus/C20']), ('hist', ['-n', 30000, '-scans', 10, '-focus', 'faults']), ('hist', ['-n', 160, '-scans', 6, '-focus', 'faults', '-slow'])],
                              search=[('hist', ['-n', 2500, '-scans', 8, '-focus', 'faults'])]),
                 aspects=['hist:outcome', 'hist:reccount', 'hist:ok', 'panic'], monitors=['C20'],
                 theorems=['Esc.P.C20_outcomes', 'Esc.P.C20_fatal_only_partial', 'Esc.P.C20_contained', 'Esc.P.C20_provider_id_guard', 'Esc.P.C20_ready_bounded',
